@@ -143,7 +143,13 @@ class SphinxRenderer(DocutilsRenderer):
             _, path_str = self.sphinx_env.relfn2path(path_dest, self.sphinx_env.docname)
             potential_path = Path(path_str)
 
-        if potential_path and potential_path.is_file():
+        try:
+            is_file = potential_path is not None and potential_path.is_file()
+        except OSError:
+            # e.g. the file name is too long for the file system
+            is_file = False
+
+        if potential_path and is_file:
             docname = self.sphinx_env.path2doc(str(potential_path))
             if docname:
                 wrap_node = addnodes.pending_xref(
